@@ -1,5 +1,5 @@
-"""C18 -- tab stops: defaults, HTS/TBC editing and HT movement.  Parametric width 1..=140; up to three
-symbolic stops anywhere in 0..=150 (i.e. including stale stops beyond a narrowed width)."""
+"""C18 -- tab stops: defaults, HTS/TBC editing and HT movement.  Parametric width 1..=300; up to three
+symbolic stops anywhere in 0..=310 (i.e. including stale stops beyond a narrowed width)."""
 import z3
 
 from ..values import *
@@ -18,7 +18,7 @@ def mk(ctx, box, nstops):
     prog, L = G['prog'], G['L']
     eng = Engine(prog, ctx)
     box['eng'] = eng
-    ss = SymScreen(ctx, eng, L, buffer='one', tabstops=nstops, geom_max=(140, 12))
+    ss = SymScreen(ctx, eng, L, buffer='one', tabstops=nstops, geom_max=(300, 12))
     ses = Session(eng, L, screen=ss.value)
     return eng, L, ss, ses
 
@@ -115,11 +115,11 @@ def path_defaults(ctx, job, box):
     if via == 'new':
         c = ctx.bvvar('columns', 32)
         l = ctx.bvvar('lines', 32)
-        ctx.assume(z3.And(z3.UGE(c, 1), z3.ULE(c, 140), z3.UGE(l, 1), z3.ULE(l, 3)))
+        ctx.assume(z3.And(z3.UGE(c, 1), z3.ULE(c, 300), z3.UGE(l, 1), z3.ULE(l, 3)))
         s = eng.call_path('Screen::new', [Int('u32', c), Int('u32', l)])
         pre = None
     else:
-        ss = SymScreen(ctx, eng, L, buffer='one', tabstops=2, geom_max=(140, 3))
+        ss = SymScreen(ctx, eng, L, buffer='one', tabstops=2, geom_max=(300, 3))
         ses = Session(eng, L, screen=ss.value)
         pre = ss.value
         ses.op('reset')
@@ -150,12 +150,12 @@ def path_resize(ctx, job, box):
     prog, L = G['prog'], G['L']
     eng = Engine(prog, ctx)
     box['eng'] = eng
-    ss = SymScreen(ctx, eng, L, buffer='none', tabstops=job.params['nstops'], geom_max=(140, 3), margins='none',
+    ss = SymScreen(ctx, eng, L, buffer='none', tabstops=job.params['nstops'], geom_max=(300, 3), margins='none',
                    savepoints=0)
     ses = Session(eng, L, screen=ss.value)
     pre = ss.value
     rl = sym_opt_u32(ctx, 'rl', 1, 3)
-    rc = sym_opt_u32(ctx, 'rc', 1, 140)
+    rc = sym_opt_u32(ctx, 'rc', 1, 300)
     outcome, msg = 'ok', None
     try:
         ses.op('resize', rl, rc)
@@ -187,8 +187,8 @@ def jobs(tier):
 
 META = {
     'functions': ['tab', 'set_tab_stop', 'clear_tab_stop', 'reset', 'Screen::new'],
-    'bounds': 'width 1..=140 symbolic, cursor column 0..=columns, 0..2 (thorough 3) symbolic stops with symbolic presence '
-              'anywhere in 0..=150 (stale stops beyond the width included); TBC selector absent or 0..=9999; default '
+    'bounds': 'width 1..=300 symbolic, cursor column 0..=columns, 0..2 (thorough 3) symbolic stops with symbolic presence '
+              'anywhere in 0..=310 (stale stops beyond the width included); TBC selector absent or 0..=9999; default '
               'stops checked for an arbitrary probe column after new()/reset() for every width',
     'outside': 'more than 3 simultaneous stops (the scan is a min over the set; its structure does not depend on the count)',
 }
